@@ -540,6 +540,133 @@ BlockStep(S, cfg, D, fr, b) ==
                              ELSE <<x.d, [f1 EXCEPT !.phase = "clean", !.mblocks = mb, !.bj = 1]>>
 
 ---------------------------------------------------------------------------
+(***************************************************************************)
+(* expand_source_SCCs (expand_scc), written as a recursive function: the   *)
+(* component sub-diagrams are diagrams of sub-networks and are expanded by *)
+(* the same algorithm.  Result: [d, ret, orc, unsound, xl].                *)
+(* Oracle inputs (orc): the answers "candidates of this sub-diagram node   *)
+(* are empty" consulted when motif-avoidant attractors are checked, in     *)
+(* call order; an answer TRUE for a node that has an attractor of its own  *)
+(* is recorded as unsound.                                                 *)
+(***************************************************************************)
+Impose(s, sp) == LET RECURSIVE Sum(_)
+                     Sum(i) == IF i = 0 THEN 0 ELSE (IF sp[i] # 2 THEN sp[i] ELSE Bit(s, i)) * P2[i] + Sum(i - 1)
+                 IN Sum(Len(sp))
+\* the network induced by the variables Cv on the space sp (the other variables become constants)
+SubNet(nt, sp, Cv) ==
+    [n |-> nt.n,
+     f |-> [i \in V(nt) |-> [k \in 1..P2[nt.n + 1] |->
+               IF i \in Cv THEN F(nt, i, Impose(k - 1, sp)) ELSE (IF sp[i] # 2 THEN sp[i] ELSE 0)]]]
+\* source SCCs of the network percolated to sp: non-trivial strongly connected sets of free variables without regulators
+\* outside, ordered as lists of variable indices
+SourceSCCs(S, sp) ==
+    LET fv == FreeV(sp)
+        Reg(i) == Regulators(S.nt, i, sp)
+        RECURSIVE Up(_)                              \* backward closure
+        Up(X) == LET nx == X \cup UNION {Reg(i) : i \in X} IN IF nx = X THEN X ELSE Up(nx)
+        Scc(v) == {u \in Up({v}) : v \in Up({u})}
+        nontrivial(v) == Cardinality(Scc(v)) > 1 \/ v \in Reg(v)
+        sccs == {Scc(v) : v \in {x \in fv : nontrivial(x) /\ Up(Scc(x)) = Scc(x)}}
+        Lt(a, b) == LET sa == SortAsc(a) sb == SortAsc(b)
+                        RECURSIVE L(_)
+                        L(k) == IF k > Len(sa) THEN k <= Len(sb)
+                                ELSE IF k > Len(sb) THEN FALSE
+                                ELSE IF sa[k] # sb[k] THEN sa[k] < sb[k] ELSE L(k + 1)
+                    IN L(1)
+    IN SetToSortSeq(sccs, Lt)
+ExtSpace(sub, at, Cv) == [i \in DOMAIN at |-> IF at[i] # 2 THEN at[i] ELSE IF i \in Cv THEN sub[i] ELSE 2]
+OnlyVars(m, Cv) == [i \in DOMAIN m |-> IF i \in Cv THEN m[i] ELSE 2]
+EmptySeeds(D, n) == [D EXCEPT !.nodes[n].seeds = Known(<<>>), !.nodes[n].sets = Known(<<>>)]
+\* oracle: a logged answer sequence (trace validation), or "exact" (model checking: claims emptiness exactly when it is true)
+OrcSeq(q) == [mode |-> "seq", q |-> q]
+OrcExact  == [mode |-> "exact", q |-> <<>>]
+Take(orc, truth) == IF orc.mode = "exact" THEN <<truth, orc>>
+                    ELSE IF orc.q = <<>> THEN <<FALSE, orc>> ELSE <<Head(orc.q), [orc EXCEPT !.q = Tail(@)]>>
+
+\* attach_scc_subdiagram.  st = [d, orc, unsound]; result adds mins (sequence of main ids)
+RECURSIVE AttachNodes(_, _, _, _, _, _, _, _, _)
+AttachNodes(S, subS, subD, at, Cv, maa, k, st, acc) ==     \* acc = [map, mins]
+    IF k > Len(subD.nodes) THEN <<st, acc>>
+    ELSE LET ext == ExtSpace(subD.nodes[k].space, st.d.nodes[at].space, Cv)
+             r   == EnsureNode(S, st.d, 0, ext)
+             ism == IsMinimalNode(subD, k)
+             D1  == IF ism THEN r.d
+                    ELSE MarkExpanded(IF r.d.nodes[r.id].expanded THEN r.d ELSE ClearAttr(r.d, r.id), r.id,
+                                      IF r.d.nodes[r.id].expanded THEN r.d.nodes[r.id].how ELSE "other")
+             o   == IF maa THEN Take(st.orc, OwnAttr(subS, subD, k) = {}) ELSE <<FALSE, st.orc>>
+             D2  == IF maa /\ o[1] THEN EmptySeeds(D1, r.id) ELSE D1
+             bad == maa /\ o[1] /\ OwnAttr(subS, subD, k) # {}
+         IN AttachNodes(S, subS, subD, at, Cv, maa, k + 1,
+                        [d |-> D2, orc |-> o[2], unsound |-> st.unsound \/ bad],
+                        [map |-> Append(acc.map, r.id), mins |-> IF ism THEN Append(acc.mins, r.id) ELSE acc.mins])
+RECURSIVE AttachEdges(_, _, _, _, _)
+AttachEdges(D, subD, map, Cv, todo) ==
+    IF todo = {} THEN D
+    ELSE LET e == CHOOSE x \in todo : TRUE
+         IN AttachEdges(EnsureEdge(D, map[e[1]], map[e[2]], OnlyVars(subD.edges[e][1], Cv)), subD, map, Cv, todo \ {e})
+Attach(S, subS, subD, at, Cv, maa, st) ==
+    IF Len(subD.nodes) = 1 THEN <<st, <<at>>>>
+    ELSE LET r   == AttachNodes(S, subS, subD, at, Cv, maa, 2, st, [map |-> <<at>>, mins |-> <<>>])
+             st1 == r[1]
+             D1  == AttachEdges(st1.d, subD, r[2].map, Cv, DOMAIN subD.edges)
+             D2  == MarkExpanded(IF D1.nodes[at].expanded THEN D1 ELSE ClearAttr(D1, at), at,
+                                 IF D1.nodes[at].expanded THEN D1.nodes[at].how ELSE "other")
+             o   == IF maa THEN Take(st1.orc, OwnAttr(subS, subD, 1) = {}) ELSE <<FALSE, st1.orc>>
+             D3  == IF maa /\ o[1] THEN EmptySeeds(D2, at) ELSE D2
+             bad == maa /\ o[1] /\ OwnAttr(subS, subD, 1) # {}
+         IN <<[d |-> D3, orc |-> o[2], unsound |-> st1.unsound \/ bad], r[2].mins>>
+
+RECURSIVE SccRun(_, _, _, _, _)
+RECURSIVE SccLevels(_, _, _, _, _)
+RECURSIVE SccNodes(_, _, _, _, _, _)
+RECURSIVE SccComponents(_, _, _, _, _, _, _)
+RECURSIVE AttachAll(_, _, _, _, _, _, _, _)
+
+\* st = [d, orc, unsound, xl, ok]
+AttachAll(S, subS, subD, Cv, maa, ats, st, mins) ==
+    IF ats = <<>> THEN <<st, mins>>
+    ELSE LET r == Attach(S, subS, subD, Head(ats), Cv, maa, [d |-> st.d, orc |-> st.orc, unsound |-> st.unsound])
+         IN AttachAll(S, subS, subD, Cv, maa, Tail(ats),
+                      [st EXCEPT !.d = r[1].d, !.orc = r[1].orc, !.unsound = r[1].unsound], mins \o r[2])
+SccComponents(S, maxm, n, maa, sccs, st, ats) ==
+    IF sccs = <<>> \/ ~st.ok THEN <<st, ats>>
+    ELSE LET Cv   == Head(sccs)
+             subS == SemOf(SubNet(S.nt, st.d.nodes[n].space, Cv))
+             sub  == SccRun(subS, maxm, NewDiagram(subS), maa, st.orc)
+         IN IF sub.ret # "true" THEN <<[st EXCEPT !.ok = FALSE, !.orc = sub.orc], ats>>
+            ELSE LET r == AttachAll(S, subS, sub.d, Cv, maa, ats,
+                                    [st EXCEPT !.orc = sub.orc, !.unsound = st.unsound \/ sub.unsound], <<>>)
+                 IN SccComponents(S, maxm, n, maa, Tail(sccs), r[1], r[2])
+ExpandPlainIn(S, maxm, st, n) ==
+    LET x == ExpandOneF(S, st.d, n, maxm, FALSE)
+    IN [st EXCEPT !.d = x.d, !.ok = st.ok /\ ~x.err, !.xl = IF x.did THEN Append(st.xl, n) ELSE st.xl]
+SccNodes(S, maxm, maa, todo, st, nxt) ==
+    IF todo = <<>> \/ ~st.ok THEN <<st, nxt>>
+    ELSE LET n    == Head(todo)
+             sccs == SourceSCCs(S, st.d.nodes[n].space)
+         IN IF Len(sccs) <= 1 THEN
+                LET st1 == ExpandPlainIn(S, maxm, st, n)
+                IN SccNodes(S, maxm, maa, Tail(todo), st1, nxt \cup Succs(st1.d, n))
+            ELSE LET r == SccComponents(S, maxm, n, maa, sccs, st, <<n>>) IN
+                 IF r[2] = <<n>> THEN
+                     LET st1 == ExpandPlainIn(S, maxm, r[1], n)
+                     IN SccNodes(S, maxm, maa, Tail(todo), st1, nxt \cup Succs(st1.d, n))
+                 ELSE SccNodes(S, maxm, maa, Tail(todo), r[1], nxt \cup SeqToSet(r[2]))
+SccLevels(S, maxm, maa, level, st) ==
+    IF level = {} \/ ~st.ok THEN st
+    ELSE LET r == SccNodes(S, maxm, maa, SortAsc(level), st, {}) IN SccLevels(S, maxm, maa, r[2], r[1])
+SccRun(S, maxm, D, maa, orc) ==
+    LET srcs == SortAsc(NodeSources(S, D.nodes[1].space))
+        st0  == [d |-> D, orc |-> orc, unsound |-> FALSE, xl |-> <<>>, ok |-> TRUE]
+        fin  == IF srcs # <<>> THEN
+                    IF P2[Len(srcs) + 1] > maxm THEN [st0 EXCEPT !.ok = FALSE]
+                    ELSE LET r == SourceKids(S, D, 1, srcs, 0, {})
+                             D1 == EmptySeeds(MarkExpanded(r[1], 1, IF D.nodes[1].expanded THEN D.nodes[1].how ELSE "other"), 1)
+                         IN SccLevels(S, maxm, maa, r[2], [st0 EXCEPT !.d = D1])
+                ELSE SccLevels(S, maxm, maa, {1}, st0)
+    IN [d |-> fin.d, ret |-> IF fin.ok THEN "true" ELSE "error", orc |-> fin.orc, unsound |-> fin.unsound, xl |-> fin.xl]
+
+---------------------------------------------------------------------------
 \* dispatch
 StepFrame(S, cfg, D, fr, b) ==
     CASE fr.op = "exp"    -> ExpStep(S, cfg, D, fr)
@@ -578,15 +705,24 @@ NodesArePercolatedTraps(S, D) ==
     \A n \in Ids(D) : D.nodes[n].space \in S.traps /\ Perc(S.nt, D.nodes[n].space) = D.nodes[n].space
 
 \* successors and motif lists of a plainly expanded node are those of the full diagram
-PlainExact(S, D, n) ==
+\* (strict: every motif exactly once - guaranteed for histories of plain expansion calls only; e.g. expand_scc on
+\* an already expanded root with source variables re-adds the same motifs to the existing edges)
+PlainExactS(S, D, n, strict) ==
     LET sp == D.nodes[n].space
         ms == MotifsOf(S, sp, sp = S.root)
         kids == {Perc(S.nt, ms[k]) : k \in DOMAIN ms}
-    IN /\ {D.nodes[c].space : c \in Succs(D, n)} = kids
-       /\ \A c \in Succs(D, n) :
-             LET lst == D.edges[<<n, c>>]
-                 exp == SelectSeq(ms, LAMBDA m : Perc(S.nt, m) = D.nodes[c].space)
-             IN SeqToSet(lst) = SeqToSet(exp) /\ Len(lst) = Len(exp)     \* exactly these motifs, each once (any order)
+    IN IF strict THEN
+          /\ {D.nodes[c].space : c \in Succs(D, n)} = kids
+          /\ \A c \in Succs(D, n) :
+                LET lst == D.edges[<<n, c>>]
+                    exp == SelectSeq(ms, LAMBDA m : Perc(S.nt, m) = D.nodes[c].space)
+                IN SeqToSet(lst) = SeqToSet(exp) /\ Len(lst) = Len(exp)     \* exactly these motifs, each once (any order)
+       ELSE \* after non-plain operations (e.g. expand_scc on an already expanded root that gains source variables by
+            \* percolation) a plainly expanded node may have received further, sound successors: its complete set of
+            \* true successors must still be there
+          /\ kids \subseteq {D.nodes[c].space : c \in Succs(D, n)}
+          /\ \A c \in Succs(D, n) : Sub(D.nodes[c].space, sp) /\ D.nodes[c].space # sp
+PlainExact(S, D, n) == PlainExactS(S, D, n, TRUE)
 \* successors of a node expanded by skipping / shortcuts: trap spaces strictly inside that keep
 \* every minimal trap space reachable
 OtherSound(S, D, n) ==
@@ -598,13 +734,14 @@ OtherSound(S, D, n) ==
            LET m == D.edges[<<n, c>>][k] IN Consistent(sp, m) /\ Sub(D.nodes[c].space, Meet(sp, m))
     /\ IF Succs(D, n) = {} THEN sp \in S.mint
        ELSE \A t \in MinTrapsIn(S, sp) : \E c \in Succs(D, n) : Sub(t, D.nodes[c].space)
-PartialFaithful(S, D) ==
+PartialFaithfulS(S, D, strict) ==
     /\ NoDupSpaces(D)
     /\ \A n \in Ids(D) :
           /\ (~D.nodes[n].expanded => Succs(D, n) = {} /\ D.nodes[n].how = "none")
-          /\ (D.nodes[n].expanded /\ D.nodes[n].how = "plain" => PlainExact(S, D, n))
+          /\ (D.nodes[n].expanded /\ D.nodes[n].how = "plain" => PlainExactS(S, D, n, strict))
           /\ (D.nodes[n].expanded /\ D.nodes[n].how # "plain" => OtherSound(S, D, n))
           /\ (D.nodes[n].skipped => D.nodes[n].expanded)
+PartialFaithful(S, D) == PartialFaithfulS(S, D, TRUE)
 
 \* the diagram is the full succession diagram
 FullExact(S, D) ==
